@@ -1,4 +1,6 @@
 import ReqVerif.Model.Cache
+import ReqVerif.Props.C13
+import ReqVerif.Generated
 /-!
 # C15 — The download cache never serves a damaged file
 
@@ -172,3 +174,29 @@ example : doDownload (fun c => c.sum) [("foo-1.0.whl", [1, 2])] { fn := "foo-1.0
     = .done [("foo-1.0.whl", [1, 2, 3, 4])] false true := by decide
 
 end RV.Cache
+
+/-! ### the wheel directory of the command line (regenerated skeleton of `compile_main`) -/
+namespace RV.PT
+
+/-- **user_wheel_dir_never_deleted**: with `--wheel-dir`, whatever raises, exits or is caught, the directory the user
+supplied (resource 1, held on entry) is still there when `compile_main` is left -/
+theorem user_wheel_dir_never_deleted : ∀ o : List Bool, (exec Gen.skel_compile_main_user o []).2.1 = [1] :=
+  balanced_of_outcomes _ _ (by decide +kernel)
+
+/-- **temp_wheel_dir_always_removed**: without `--wheel-dir`, on every path — normal end, `sys.exit` after a
+diagnostic, an exception escaping from the solve — the temporary directory is gone (`build_repo` is taken to raise
+nothing but the `ValueError` its call site handles: `skeleton.RAISES_ONLY`) -/
+theorem temp_wheel_dir_always_removed : ∀ o : List Bool, (exec Gen.skel_compile_main_temp o []).2.1 = [] :=
+  balanced_of_outcomes _ _ (by decide +kernel)
+
+theorem compile_main_resource_is_the_wheel_dir :
+    Gen.skelRes_compile_main_user[1]? = some "tmpdir:wheeldir" ∧ Gen.skelRes_compile_main_temp[1]? = some "tmpdir:wheeldir" := by
+  decide
+
+/-- D40 (repaired in /repo by ec22a86): while the directory was created before the input files were read, a failure in
+between left it behind; in skeleton form -/
+theorem d40_early_creation_leaks :
+    (Exit.exc, [1]) ∈ outcomes (.seq (.acq 1) (.seq .call (.tryFin .call (.rel 1)))) [] ∧
+    (∀ p ∈ outcomes (.seq .call (.seq (.acq 1) (.tryFin .call (.rel 1)))) [], p.2 = []) := by decide
+
+end RV.PT
